@@ -273,6 +273,29 @@ Definition pad (s : spectrum) (e0 e1 : Qc) (sampling : option Qc) (mode : padmod
     end
   end.
 
+(* pad refuses a sample count below 1 on either side; the code evaluates the LEFT side first. When BOTH counts are
+   refused and with different exception classes, [pad_other_refusal] is the class the right side would raise: C15 does
+   not pin which of two refusals fires (the object is untouched either way), so the tie accepts either class *)
+Definition count_refusal (n : Z) : option errkind :=
+  if (n <? 0)%Z then Some ValueError else if (n =? 0)%Z then Some IndexError else None.
+Definition pad_counts (s : spectrum) (e0 e1 : Qc) (sampling : option Qc) (mode : padmode) : option (Z * Z) :=
+  match (match mode with PadConst _ _ => true | PadEdge => match value s with [] => false | _ => true end end),
+        (match sampling with Some d => Ok d | None => min_diff (wave s) end), wave s with
+  | true, Ok dw, w0 :: _ =>
+      let wl := last (wave s) w0 in
+      Some ((Qceiling ((w0 - e0) / dw) + 1)%Z, (Qceiling ((e1 - wl) / dw) + 1)%Z)
+  | _, _, _ => None
+  end.
+Definition pad_other_refusal (s : spectrum) (e0 e1 : Qc) (sampling : option Qc) (mode : padmode) : option errkind :=
+  match pad_counts s e0 e1 sampling mode with
+  | Some (nl, nr) =>
+      match count_refusal nl, count_refusal nr with
+      | Some a, Some b => if (errcode a =? errcode b)%Z then None else Some b
+      | _, _ => None
+      end
+  | None => None
+  end.
+
 (* np.any(a <= b) with numpy broadcasting of two 1-d arrays *)
 Definition bcast_any_le (a b : list Qc) : result bool :=
   if (length a =? length b)%nat then Ok (existsb (fun q => qle (fst q) (snd q)) (combine a b))
